@@ -196,6 +196,8 @@ def concretize(r, idx=0):
     if pad is not None:
         mul, add = PAD_TARGET[r['lenc']]
         step['pad'] = {'mul': mul, 'add': add, 'char': pad}
+    if not r.get('declared', True) and not step.get('nobody'):
+        step['undeclared'] = True
     step['body64'] = base64.b64encode(body).decode()
     return step
 
@@ -233,7 +235,7 @@ def devclass(r, dec=None):
     if r['method'] != 'POST':
         out.append('method')
     if r.get('lenc', 'small') in ('lim+1', '3lim') or r.get('toolarge'):
-        out.append('oversize')
+        out.append('oversize' if r.get('declared', True) else 'oversize-undeclared-length')
     if r['week']['shape'] != 'iso':
         out.append('week-shape')
     elif not valid_date(r['week']['y'], r['week']['m'], r['week']['d']):
@@ -281,7 +283,7 @@ def judge(ctx, r, dec, obs, prior, prefix, where):
     violations; returns the bucket after the step according to the model
     (None if the step did not match)."""
     cls = devclass(r)
-    detail = {'request': {k: r[k] for k in ('method', 'kind', 'gshape', 'week', 'config', 'x', 'pform', 'programs', 'lenc', 'pad') if k in r},
+    detail = {'request': {k: r[k] for k in ('method', 'kind', 'gshape', 'week', 'config', 'x', 'pform', 'programs', 'lenc', 'pad', 'declared') if k in r},
               'decision': dec, 'observed': {k: v for k, v in obs.items() if k not in ('listing',)}, 'where': where,
               'prior_bucket': sorted(map(str, prior)), 'body': body_preview(r)}
     sc = status_class(obs.get('status'))
@@ -351,7 +353,7 @@ def ndev(req, primary):
         return 0
     n = sum(1 for f in ('method', 'week', 'config', 'x') if req[f] != primary[f])
     n += (req['pform'], req['programs']) != (primary['pform'], primary['programs'])
-    n += (req['lenc'], req['pad']) != (primary['lenc'], primary['pad'])
+    n += (req['lenc'], req['pad'], req['declared']) != (primary['lenc'], primary['pad'], primary['declared'])
     return n
 
 
@@ -614,6 +616,10 @@ class Gen:
         step = {'method': method, 'path': r.choice(PATHS), 'body64': base64.b64encode(body).decode()}
         if pad:
             step['pad'] = pad
+        # the length is announced (Content-Length) or not (chunked): half of the padded bodies, a fifth of the others
+        absr['declared'] = not (r.random() < (0.5 if pad else 0.2))
+        if not absr['declared']:
+            step['undeclared'] = True
         absr['_len'] = (len(body), pad)       # resolved to a number once the server's limit is known
         absr['_text'] = {'week': wt, 'config': ct, 'x': xl}
         return absr, step
@@ -639,8 +645,12 @@ class Gen:
                               b'{"Week":"2023-01-01" "X":1}', b'{"X":0.5e}', b'{"X":.5}', b'{"X":01}', b'{"X":+1}', b'{"X":0x10}', b'{"X":NaN}', b'{"X":Infinity}'])
             if not first_value_decodes(g):
                 absr = {'kind': 'garbage', 'gshape': 'random', 'method': method, 'week': self.abs_week('2023-01-01'), 'config': self.abs_config('v1.2.3'),
-                        'x': self.abs_x('0.5'), 'pform': 'absent', 'programs': [], 'tag': 0, '_len': (len(g), None), '_text': {}}
-                return absr, {'method': method, 'path': r.choice(PATHS), 'body64': base64.b64encode(g).decode()}
+                        'x': self.abs_x('0.5'), 'pform': 'absent', 'programs': [], 'tag': 0, '_len': (len(g), None), '_text': {},
+                        'declared': r.random() < 0.8}
+                stp = {'method': method, 'path': r.choice(PATHS), 'body64': base64.b64encode(g).decode()}
+                if not absr['declared']:
+                    stp['undeclared'] = True
+                return absr, stp
         return self.request_valid()
 
     def request_valid(self):
@@ -697,7 +707,7 @@ def trace_record(absr, obs, prefix):
     recs['matches'] = [keyrec(k) for k in sorted(km)]
     for k in recs['matches']:
         k.pop('_iso')
-    req = {k: absr[k] for k in ('kind', 'method', 'week', 'config', 'pform', 'len')}
+    req = {k: absr[k] for k in ('kind', 'method', 'week', 'config', 'pform', 'len', 'declared')}
     req['x'] = {'kind': absr['x']['kind'], 'val': absr['x']['val']}
     req['programs'] = absr['programs']
     sc = status_class(obs.get('status'))
@@ -724,6 +734,8 @@ def run(ctx):
     ctx.assumptions += [
         'the endpoint is driven in-process: newHandler(...).ServeHTTP with httptest requests (the complete mux + middleware chain main.go builds), '
         'FS buckets below a private storage root, the default size limit of config.NewConfig; request paths are clean paths under /upload/',
+        'the request length is either announced (Content-Length = number of body bytes) or not (ContentLength -1 / Transfer-Encoding chunked on the '
+        'in-process request, same body reader); a Content-Length that lies about the body is not generated',
         'a body is exactly one JSON value (possibly preceded by blanks): bodies with bytes after a complete first JSON value are not generated '
         '(the decoder reads the first value only; DESIGN C12 Limits) -- hence "over the size limit" means the first value itself does not fit',
         'reports use the documented field names and JSON types; unknown extra fields, case-variant field names, duplicate keys and invalid UTF-8 '
@@ -936,7 +948,7 @@ def run(ctx):
     if origin[1:]:
         h, i, a, o, stp = [x for x in origin if x and x[3].get('status') == 200][0]
         ctx.sample({'kind': 'observation', 'text': a.get('_text'), 'method': a['method'], 'status': o.get('status'), 'created': o.get('created')})
-    ctx.cov['rule'] = ('vectors = every request deviating from a valid primary request in <= %d of {method, week, config, X, programs, size} plus every '
+    ctx.cov['rule'] = ('vectors = every request deviating from a valid primary request in <= %d of {method, week, config, X, programs, size (length class x padding place x length declared or not)} plus every '
                        'garbage body class, each on an empty and (for <= 2 deviations) on a pre-populated bucket; histories = TLC -simulate walks of Server.tla; random = '
                        'seeded random reports/garbage abstracted by independent tokenizers and decided by TLC (ServerTrace); distinct = distinct '
                        'request vectors + histories' % K)
